@@ -189,12 +189,6 @@ def run_case(c):
         labels.append("ambiguous")
         # docs silent on who refuses what here; whatever the answer, it is a documented code
         _documented_code(mode, req, rep, line)
-        if spec.only_brothers_invalid(req, mode):
-            labels.append("only-brothers-invalid")
-            if rep["errorcode"] not in ({-205} | spec.GENERIC):
-                raise Violation("verdict:%s-for-invalid-brothers" % rep["errorcode"],
-                                "request %s -> %r; the blocks are in order, a brother is not a "
-                                "block header: the docs call that -205" % (line[:400], rep))
         return Out(labels, False)
     labels.append("verdict:%s" % verdict)
     if verdict not in al:
@@ -388,8 +382,7 @@ REQUIRED_LABELS = {
         "verdict:-904", "verdict:-101", "verdict:-102", "verdict:-103", "verdict:-204",
         "verdict:-205", "verdict:-301", "verdict:-2", "verdict:-666", "mut:delete",
         "mut:replace-int", "mut:replace-str", "mut:replace-list", "mut:replace-dict",
-        "mut:addkey", "ambiguous", "only-brothers-invalid", "reconnection-pending",
-        "after-the-nominal-request",
+        "mut:addkey", "ambiguous", "reconnection-pending", "after-the-nominal-request",
         "spelling:padded-3MiB", "spelling:escaped"] + ["tpl:" + n for n in TEMPLATES_V5]
     for t in ("quick", "thorough")}
 
@@ -407,16 +400,16 @@ def stages(tier):
     from vlib.runner import EnumStage
     return [EnumStage("single-mutations", SingleMutations, run_case,
                       exhaustive={"quick": True, "thorough": True},
-                      budget_s={"quick": 100, "thorough": 300}),
+                      budget_s={"quick": 300, "thorough": 300}),
             EnumStage("spellings-through-the-server", spelling_cases, run_spelling,
                       exhaustive={"quick": True, "thorough": True},
-                      budget_s={"quick": 60, "thorough": 120}),
+                      budget_s={"quick": 180, "thorough": 120}),
             EnumStage("single-mutations-after-the-nominal-request", WarmSingleMutations,
                       run_case, exhaustive={"quick": True, "thorough": True},
-                      budget_s={"quick": 100, "thorough": 300}),
+                      budget_s={"quick": 300, "thorough": 300}),
             EnumStage("single-mutations-reconnection-pending", PendingSingleMutations, run_case,
                       exhaustive={"quick": True, "thorough": True},
-                      budget_s={"quick": 100, "thorough": 300}),
+                      budget_s={"quick": 300, "thorough": 300}),
             HypStage("classify", lambda t: cases(t), run_case,
                      {"quick": 1500, "thorough": 40000},
-                     budget_s={"quick": 100, "thorough": 900})]
+                     budget_s={"quick": 300, "thorough": 900})]
